@@ -413,6 +413,10 @@ type Clause struct {
 type LoopContract struct {
 	Invariants []Clause
 	Decreases  *Clause
+	// "loop N exhaustive [Cxx]": the loop is left only when its range / condition is exhausted;
+	// every break out of it is an obligation (unreachable)
+	Exhaustive    bool
+	ExhaustiveTag string
 }
 
 type FuncContract struct {
@@ -680,6 +684,11 @@ func (cs *Contracts) LoadContractFile(path, pkg string, assumedFile bool) error 
 			if lc == nil {
 				lc = &LoopContract{}
 				cur.Loops[n] = lc
+			}
+			if w3 == "exhaustive" {
+				lc.Exhaustive = true
+				lc.ExhaustiveTag = strings.Trim(strings.TrimSpace(r3), "[]")
+				break
 			}
 			c, err := clause(r3)
 			if err != nil {
